@@ -1,9 +1,9 @@
 CONSTANTS Eps = {"e1", "e2", "e3"}  MaxLen = 0
-CONSTANTS Listings = {}  BadLists = {}  FailKinds = {}  FilterChoices = {}  Probe = {}
+CONSTANTS Listings = {}  BadLists = {}  FailKinds = {}  FilterChoices = {}  Probe = {}  FailBodies = {}  WithConcurrency = FALSE
 CONSTANT KnownDeviations = ${KnownDeviations}
 SPECIFICATION TraceSpec
 CONSTRAINT HW
-INVARIANTS TypeOK Inv_C10_count OnlyFiltered
+INVARIANTS TypeOK Inv_C10_count
 PROPERTIES RejectedKeepsRef
 POSTCONDITION Accepted
 CHECK_DEADLOCK FALSE
